@@ -44,9 +44,10 @@ enum Probe
 	P_BUDGET_1E5,
 	P_BUDGET_1E6,
 	P_LONG_HISTORY,
+	P_ABORTED,
 	P_NPROBES
 };
-const char* PROBE_NAMES[] = {"integrator_calls", "integrand_evaluations", "method_plain_mc", "method_vegas", "method_miser", "frontend_integrate_2d", "frontend_integrate_3d", "frontend_integrate_3d_spherical", "integrand_runs_a_nested_integration", "vegas_stratification_off_branch(2ng>=50)", "miser_call_with_mostly_flat_zero_integrand", "narrow_peak_underflows_to_zero", "history_vs_pristine_process_comparisons", "repeat_inside_history_comparisons", "accuracy_checks_on_regular_integrands", "accuracy_escalations", "ensemble_bias_tests", "constant_integrand_checks", "fault_entropy_edge_seed(0,1,2^32-1,repeat)", "history_changes_dimension_before_compared_call", "budget_1e5_or_more", "budget_1e6", "call_number_20_or_later_in_its_process"};
+const char* PROBE_NAMES[] = {"integrator_calls", "integrand_evaluations", "method_plain_mc", "method_vegas", "method_miser", "frontend_integrate_2d", "frontend_integrate_3d", "frontend_integrate_3d_spherical", "integrand_runs_a_nested_integration", "vegas_stratification_off_branch(2ng>=50)", "miser_call_with_mostly_flat_zero_integrand", "narrow_peak_underflows_to_zero", "history_vs_pristine_process_comparisons", "repeat_inside_history_comparisons", "accuracy_checks_on_regular_integrands", "accuracy_escalations", "ensemble_bias_tests", "constant_integrand_checks", "fault_entropy_edge_seed(0,1,2^32-1,repeat)", "history_changes_dimension_before_compared_call", "budget_1e5_or_more", "budget_1e6", "call_number_20_or_later_in_its_process", "fault_integrand_throws_mid_call"};
 
 enum Metric
 {
@@ -61,6 +62,7 @@ const char* METHODS[] = {"Monte-Carlo", "Vegas", "Miser"};
 struct CallSpec
 {
 	int method = 0, frontend = 0, ndim = 1, ncalls = 1000, family = 0, solo = 0, ensemble = 0;
+	long long abort_at = 0;	  // fault: the integrand throws at this evaluation (the call is abandoned half-way)
 	uint32_t seed = 0;
 	std::vector<double> lo, hi, par;   // par: family parameters, 4 per axis + [scale]
 };
@@ -68,7 +70,7 @@ struct CallSpec
 Op spec_to_op(const CallSpec& c)
 {
 	Op o(c.ensemble ? "ensemble" : "call");
-	o.i = {c.method, c.frontend, c.ndim, c.ncalls, c.family, (long long) c.seed, c.solo, c.ensemble};
+	o.i = {c.method, c.frontend, c.ndim, c.ncalls, c.family, (long long) c.seed, c.solo, c.ensemble, c.abort_at};
 	o.d = c.lo;
 	o.d.insert(o.d.end(), c.hi.begin(), c.hi.end());
 	o.d.insert(o.d.end(), c.par.begin(), c.par.end());
@@ -86,6 +88,7 @@ bool op_to_spec(const Op& o, CallSpec& c)
 	c.seed	   = (uint32_t) o.i[5];
 	c.solo	   = (int) o.i[6];
 	c.ensemble = (int) o.i[7];
+	c.abort_at = o.i.size() > 8 ? o.i[8] : 0;
 	if(c.ndim < 1 || c.ndim > 6 || c.method < 0 || c.method > 2 || c.ncalls < 100 || c.ncalls > 2000000)
 		return false;
 	if((int) o.d.size() != 2 * c.ndim + 4 * c.ndim + 1)
@@ -303,6 +306,7 @@ struct CallResult
 	int32_t finished;
 	uint64_t entropy_draws;
 	uint64_t inner_bad;
+	int32_t aborted;
 };
 
 // Executes one integrator call with the entropy seam set to `seed`; never throws.
@@ -323,8 +327,13 @@ CallResult run_call(const CallSpec& c, uint32_t seed)
 		double m = std::max(std::fabs(c.lo[j]), std::fabs(c.hi[j]));
 		slack[j] = 4 * (std::nextafter(m, INFINITY) - m);
 	}
+	struct AbortCall
+	{
+	};
 	auto observe = [&](const double* x, int n) {
 		r.evals++;
+		if(c.abort_at > 0 && (long long) r.evals == c.abort_at)
+			throw AbortCall();	 // injected fault: the caller's integrand gives up (exception) in the middle of the integration
 		// (Vegas hands over its static work vector of 10 entries; only the first ndim are coordinates. Fewer than ndim is an error.)
 		if(n < c.ndim && r.contained)
 		{
@@ -350,6 +359,8 @@ CallResult run_call(const CallSpec& c, uint32_t seed)
 	uint64_t before = entropy_draws_total();
 	entropy_set_call_seed(seed);
 	std::string method = METHODS[c.method];
+	try
+	{
 	if(c.frontend == 2)
 	{
 		std::function<double(double, double)> f2 = [&](double x, double y) {
@@ -423,6 +434,12 @@ CallResult run_call(const CallSpec& c, uint32_t seed)
 		}
 		r.value = libphysica::Integrate_MC(f, it->second, c.ncalls, method);
 	}
+	}
+	catch(AbortCall&)
+	{
+		r.aborted = 1;
+		r.value	  = 0.0;
+	}
 	r.entropy_draws = entropy_draws_total() - before;
 	r.inner_bad		= F.inner_bad;
 	r.finished		= 1;
@@ -455,6 +472,16 @@ struct Exec
 
 	void check_single(const CallSpec& c, const CallResult& r, bool judged_accuracy)
 	{
+		if(r.aborted)
+		{
+			// the integrand gave up half-way: nothing to judge about the value; the samples so far must still be inside, and
+			// the NEXT calls of the history must not notice (they are compared with pristine processes as usual)
+			ctx.probe(P_ABORTED);
+			ctx.log.u64(r.evals);
+			if(!r.contained)
+				ctx.violate("C14:containment", fmt("sample coordinate %d = %.17g lies outside its axis limits (call later abandoned by its integrand); %s", r.bad_axis, r.bad_value, describe(c).c_str()));
+			return;
+		}
 		ctx.probe(P_CALLS);
 		ctx.probe(P_EVALS, r.evals);
 		ctx.probe(c.method == 0 ? P_MC : c.method == 1 ? P_VEGAS : P_MISER);
@@ -572,7 +599,7 @@ struct Exec
 		memset(solo, 0, sizeof(CallResult) * n);
 		// Pristine grandchildren: this process has not called libphysica yet, so a fork of it is a fresh process image.
 		for(size_t k = 0; k < n; k++)
-			if(specs[k].solo && !specs[k].ensemble)
+			if(specs[k].solo && !specs[k].ensemble && !specs[k].abort_at)
 			{
 				fflush(nullptr);
 				pid_t pid = fork();
@@ -623,14 +650,14 @@ struct Exec
 			ctx.state(st);
 			// repeated call inside the history: same arguments and seed must give the same bits
 			for(size_t q = 0; q < k; q++)
-				if(!specs[q].ensemble && plan.ops[op_index[q]].d == plan.ops[op_index[k]].d && specs[q].method == c.method && specs[q].frontend == c.frontend && specs[q].ncalls == c.ncalls && specs[q].family == c.family && specs[q].seed == c.seed)
+				if(!specs[q].ensemble && !specs[q].abort_at && !c.abort_at && plan.ops[op_index[q]].d == plan.ops[op_index[k]].d && specs[q].method == c.method && specs[q].frontend == c.frontend && specs[q].ncalls == c.ncalls && specs[q].family == c.family && specs[q].seed == c.seed)
 				{
 					ctx.probe(P_DUP_COMPARED);
 					if(!same_bits(results[q].value, results[k].value) || results[q].evals != results[k].evals || results[q].pthash != results[k].pthash)
 						ctx.violate("C14:history:repeat-differs", fmt("the same call with the same seed gave %.17g (%llu evaluations) as call #%zu and %.17g (%llu evaluations) as call #%zu of the history; %s", results[q].value, (unsigned long long) results[q].evals, q, results[k].value, (unsigned long long) results[k].evals, k, describe(c).c_str()));
 					break;
 				}
-			if(c.solo)
+			if(c.solo && !c.abort_at)
 			{
 				ctx.probe(P_SOLO_COMPARED);
 				if(k >= 1 && dims_differ)
@@ -866,10 +893,28 @@ struct Gen
 			c.ncalls = (int) r.pick(std::vector<long long>{3000, 10000, 20000});
 			hist.push_back(c);
 		}
+		// fault: in some histories one call is abandoned half-way by its integrand (exception); a later verbatim repeat of the
+		// same request, and everything after it, must not notice
+		if(hist.size() >= 2 && r.chance(0.2))
+		{
+			size_t k	  = r.below(hist.size() - 1);
+			CallSpec full = hist[k];
+			if(!full.ensemble && full.family != 6)
+			{
+				hist[k].abort_at = 1 + (long long) r.below((uint64_t) std::max(2, full.ncalls / 2));
+				hist[k].solo	 = 0;
+				full.solo		 = 1;
+				hist.insert(hist.begin() + k + 1 + r.below(hist.size() - k), full);
+			}
+		}
 		// compared calls: the last one and two others
 		hist.back().solo = 1;
 		for(int q = 0; q < 2; q++)
-			hist[r.below(hist.size())].solo = 1;
+		{
+			CallSpec& h = hist[r.below(hist.size())];
+			if(!h.abort_at)
+				h.solo = 1;
+		}
 		// ensemble bias test (thorough tier, some runs): K seeds of one smooth request
 		if(thorough && r.chance(0.25))
 		{
